@@ -130,4 +130,366 @@ Proof.
        cbv beta; intros b s1 p1 o1 HQ; apply sx_ret; exists b; exact HQ.
 Qed.
 
+(* ====================================================================== *)
+(* The same at the level of worlds *)
+Lemma kill_post_shape i sig s p o t b s' p' o' :
+  kill_post i sig s p o t b s' p' o' ->
+  exists r, (r = 0 \/ r = 1 \/ r = 2) /\ b = (r =? 2) /\
+    s' = (if r =? 2 then UNKNOWN else STOPPING) /\
+    p' = (if r =? 2 then p_delay (p_killing p false) 0
+          else p_delay (p_killing p true) (t + c_stopwaitsecs (cf i) * U)) /\
+    o' = (if r =? 2 then [EState i STOPPING UNKNOWN 0 true] else []) ++
+         EKill (kill_target (cf i) s (pid p)) sig r ::
+         (if pstate_eqb s STOPPING then o else EState i s STOPPING (pid p) true :: o).
+Proof.
+  unfold kill_post. cbv zeta. intros [(r & Hr & -> & -> & -> & ->) | (-> & -> & -> & ->)].
+  - exists r. destruct Hr as [-> | ->]; cbn; auto 10.
+  - exists 2. cbn. auto 10.
+Qed.
+
+(* B2: a stop request for a RUNNING / STARTING process with a child: the STOPPING notification,
+   then exactly one os.kill(target, stopsignal) with the target chosen by stopasgroup; when the kernel
+   refuses with an error other than ESRCH (r = 2) the process becomes UNKNOWN and an error is returned *)
+Theorem stop_sends_stopsignal_first w i :
+  sts w i = RUNNING \/ sts w i = STARTING -> pid (procs w i) > 0 ->
+  exists b w', stop i w = (Some b, w') /\ fr i w w' /\
+    let pd := pid (procs w i) in
+    let tg := kill_target (cf i) (sts w i) pd in
+    Z.abs tg = pd /\ (tg < 0 <-> c_stopasgroup (cf i) = true) /\
+    exists r, (r = 0 \/ r = 1 \/ r = 2) /\ b = (r =? 2) /\
+      out w' = (if r =? 2 then [EState i STOPPING UNKNOWN 0 true] else []) ++
+               EKill tg (c_stopsignal (cf i)) r :: EState i (sts w i) STOPPING pd true :: out w /\
+      sts w' i = (if r =? 2 then UNKNOWN else STOPPING) /\
+      admin_stop (procs w' i) = true /\ pid (procs w' i) = pd /\
+      (r <> 2 -> killing (procs w' i) = true /\ delay (procs w' i) = now w + c_stopwaitsecs (cf i) * U).
+Proof.
+  intros Hs Hp.
+  destruct (sx_world i (stop i) w (kill_post i (c_stopsignal (cf i)) (sts w i) (p_admin (procs w i) true) (out w) (now w)))
+    as (b & w' & E & F & HQ).
+  { apply stop_sx; [destruct Hs as [-> | ->]; reflexivity | lia]. }
+  exists b, w'. split; [exact E | split; [exact F|]]. cbv zeta.
+  destruct (c04_target (cf i) (sts w i) _ Hp) as (T1 & _ & T3).
+  split; [exact T3 | split; [apply T1; destruct Hs as [-> | ->]; discriminate|]].
+  destruct (kill_post_shape _ _ _ _ _ _ _ _ _ _ HQ) as (r & Hr & Eb & Es & Ep & Eo).
+  exists r. autorewrite with procdb in Eo. split; [exact Hr | split; [exact Eb | split; [|split; [exact Es|]]]].
+  - rewrite Eo. destruct Hs as [-> | ->]; reflexivity.
+  - rewrite Ep. destruct (r =? 2) eqn:E2; autorewrite with procdb; repeat split; try reflexivity; intros; lia.
+Qed.
+
+(* a stop request during BACKOFF cancels the pending retry immediately: STOPPED, no signal *)
+Theorem stop_cancels_backoff w i :
+  sts w i = BACKOFF ->
+  exists w', stop i w = (Some false, w') /\ fr i w w' /\ sts w' i = STOPPED /\
+    procs w' i = p_admin (procs w i) true /\ out w' = EState i BACKOFF STOPPED (pid (procs w i)) true :: out w.
+Proof.
+  intros Hs. destruct (sx_world i (stop i) w _ ltac:(rewrite Hs; apply stop_backoff_sx)) as (b & w' & E & F & -> & H).
+  exists w'. auto.
+Qed.
+
+(* B3: one pass over a STOPPING process: SIGKILL is sent iff the deadline (as adjusted for a clock
+   rollback at this reading) has been reached, to the target chosen by killasgroup, and the wait
+   starts again; otherwise nothing happens besides the adjustment *)
+Theorem sigkill_exactly_when_due w i :
+  sts w i = STOPPING -> pid (procs w i) > 0 ->
+  exists w', transition i w = (Some tt, w') /\ fr i w w' /\
+    let pd := pid (procs w i) in
+    let p0 := adjust_times U STOPPING (cf i) (now w) (procs w i) in
+    let tg := kill_target (cf i) STOPPING pd in
+    Z.abs tg = pd /\ (tg < 0 <-> c_killasgroup (cf i) = true) /\
+    (kill_due p0 (now w) = true ->
+       exists r, (r = 0 \/ r = 1 \/ r = 2) /\
+         out w' = (if r =? 2 then [EState i STOPPING UNKNOWN 0 true] else []) ++ EKill tg 9 r :: out w /\
+         sts w' i = (if r =? 2 then UNKNOWN else STOPPING) /\
+         (r <> 2 -> killing (procs w' i) = true /\ delay (procs w' i) = now w + c_stopwaitsecs (cf i) * U)) /\
+    (kill_due p0 (now w) = false -> sts w' i = STOPPING /\ procs w' i = p0 /\ out w' = out w) /\
+    ((exists l tg' r, out w' = l ++ EKill tg' 9 r :: out w) <-> now w >= delay p0).
+Proof.
+  intros Hs Hp.
+  destruct (sx_world i (transition i) w (ts_post i (procs w i) (out w) (now w))) as ([] & w' & E & F & HQ).
+  { rewrite Hs. apply transition_stopping_sx. lia. }
+  exists w'. split; [exact E | split; [exact F|]]. cbv zeta.
+  destruct (c04_target (cf i) STOPPING _ Hp) as (_ & T2 & T3).
+  split; [exact T3 | split; [apply T2; reflexivity|]].
+  unfold ts_post in HQ. cbv zeta in HQ. rewrite <- c04_kill_due_iff.
+  destruct (kill_due (adjust_times U STOPPING (cf i) (now w) (procs w i)) (now w)) eqn:Ek.
+  - destruct HQ as (b & HQ). destruct (kill_post_shape _ _ _ _ _ _ _ _ _ _ HQ) as (r & Hr & Eb & Es & Ep & Eo).
+    rewrite adjust_stopping_pid in Eo. cbn [pstate_eqb] in Eo.
+    split; [|split; [discriminate|]].
+    + intros _. exists r. split; [exact Hr | split; [exact Eo | split; [exact Es|]]].
+      rewrite Ep. intros H2. replace (r =? 2) with false by lia. autorewrite with procdb. auto.
+    + split; [reflexivity|]. intros _. rewrite Eo. destruct (r =? 2); [eexists [_], _, _ | eexists [], _, _]; reflexivity.
+  - split; [discriminate | split; [intros _; exact HQ|]]. split; [|discriminate].
+    intros (l & tg' & r & El). destruct HQ as (_ & _ & Eo). rewrite Eo in El. symmetry in El.
+    apply app_cons_not_nil in El. destruct El.
+Qed.
+
+(* B4 (first half): whatever the wait status, reaping the child of a STOPPING process gives STOPPED *)
+Theorem stopping_reaped_then_stopped w i st :
+  sts w i = STOPPING -> killing (procs w i) = true ->
+  exists w', finish i st w = (Some tt, w') /\ fr i w w' /\
+    sts w' i = STOPPED /\ pid (procs w' i) = 0 /\ killing (procs w' i) = false /\
+    exitstatus (procs w' i) = Some (decode_es st) /\ laststop (procs w' i) = now w /\
+    out w' = EState i STOPPING STOPPED (pid (procs w i)) true :: out w.
+Proof.
+  intros Hs Hk.
+  destruct (sx_world i (finish i st) w _ ltac:(rewrite Hs; apply (finish_stopping_sx i st _ _ _ _ Hk)))
+    as ([] & w' & E & F & Es & Ep & Eo).
+  exists w'. rewrite Ep. unfold reaped_p. autorewrite with procdb. auto 10.
+Qed.
+
+(* B1 (function level): the only emitters of EKill are kill and signal; both address the child of the
+   process they are called for: |target| = pid, negative exactly when the group flag selected by the state is set *)
+Theorem kill_effects_target_own_child w i sig :
+  in_signallable_states (sts w i) = true -> pid (procs w i) > 0 ->
+  exists b w', kill i sig w = (Some b, w') /\ fr i w w' /\
+    forall l tg sg r, out w' = l ++ out w -> In (EKill tg sg r) l ->
+      tg = kill_target (cf i) (sts w i) (pid (procs w i)) /\ sg = sig /\ Z.abs tg = pid (procs w i) /\
+      (tg < 0 <-> (if pstate_eqb (sts w i) STOPPING then c_killasgroup (cf i) else c_stopasgroup (cf i)) = true).
+Proof.
+  intros Hs Hp.
+  destruct (sx_world i (kill i sig) w (kill_post i sig (sts w i) (procs w i) (out w) (now w))) as (b & w' & E & F & HQ).
+  { apply kill_sx; [exact Hs | lia]. }
+  exists b, w'. split; [exact E | split; [exact F|]]. intros l tg sg r El Hin.
+  destruct (kill_post_shape _ _ _ _ _ _ _ _ _ _ HQ) as (r0 & Hr & _ & _ & _ & Eo).
+  assert (Hl : l = (if r0 =? 2 then [EState i STOPPING UNKNOWN 0 true] else []) ++
+               EKill (kill_target (cf i) (sts w i) (pid (procs w i))) sig r0 ::
+               (if pstate_eqb (sts w i) STOPPING then [] else [EState i (sts w i) STOPPING (pid (procs w i)) true])).
+  { apply (app_inv_tail (out w)). rewrite <- El, Eo. rewrite <- app_assoc. cbn.
+    destruct (pstate_eqb (sts w i) STOPPING); reflexivity. }
+  assert (Hin' : EKill tg sg r = EKill (kill_target (cf i) (sts w i) (pid (procs w i))) sig r0).
+  { rewrite Hl in Hin. apply in_app_or in Hin. destruct Hin as [Hin | [Hin | Hin]].
+    - destruct (r0 =? 2); cbn in Hin; intuition discriminate.
+    - symmetry. exact Hin.
+    - destruct (pstate_eqb (sts w i) STOPPING); cbn in Hin; intuition discriminate. }
+  inversion Hin'; subst. split; [reflexivity | split; [reflexivity|]].
+  destruct (c04_target (cf i) (sts w i) _ Hp) as (T1 & T2 & T3). split; [exact T3|].
+  destruct (pstate_eqb (sts w i) STOPPING) eqn:E1.
+  - apply T2. apply pstate_eqb_eq in E1. exact E1.
+  - apply T1. apply pstate_eqb_neq in E1. exact E1.
+Qed.
+
 End Specs.
+
+(* ====================================================================== *)
+(* B4 (second half), on whole runs.
+   (a) from Trace.TI_run: a notification that leaves STOPPING enters STOPPED, or enters UNKNOWN
+       right after a failed kill;
+   (b) STOPPING -> STOPPED is announced only by `finish`, i.e. immediately after the waitpid
+       (EWait) that reaped a child: a trace-shape invariant proved like A1. *)
+Lemma trace_ok_suffix l o : trace_ok (l ++ o) -> trace_ok o.
+Proof.
+  induction l as [|e l IH]; cbn; [auto|]. intros H. apply IH. destruct e; try exact H. apply H.
+Qed.
+
+Fixpoint stop_ok (o : list effect) : Prop :=
+  match o with
+  | [] => True
+  | EState i STOPPING STOPPED _ _ :: r =>
+    match r with EWait _ _ :: _ => True | _ => False end /\ stop_ok r
+  | _ :: r => stop_ok r
+  end.
+
+Definition nostop (e : effect) : Prop :=
+  match e with EState _ STOPPING STOPPED _ _ => False | _ => True end.
+
+Lemma stop_ok_cons e o : nostop e -> stop_ok o -> stop_ok (e :: o).
+Proof. destruct e; cbn; intros H Ho; try exact Ho. destruct from, to; try exact Ho. destruct H. Qed.
+
+Definition SK : world -> Prop := TP stop_ok.
+(* right after a waitpid *)
+Definition SKW (w : world) : Prop := stop_ok (out w) /\ exists q s r, out w = EWait q s :: r.
+
+Lemma SKW_SK w : SKW w -> SK w.
+Proof. intros [H _]. exact H. Qed.
+
+Ltac sk_leaf :=
+  first [ apply (tp_exited stop_ok nostop stop_ok_cons); exact Logic.I
+        | apply (tp_emit stop_ok nostop stop_ok_cons); exact Logic.I
+        | apply (tp_crash stop_ok nostop stop_ok_cons); exact Logic.I
+        | apply (tp_modw stop_ok); intros;
+          repeat match goal with |- context [if ?c then _ else _] => destruct c end; reflexivity ].
+
+Create HintDb skdb.
+Ltac sktac := ctac sk_leaf ltac:(eauto with skdb).
+
+Section StopShape.
+Variable U : Z.
+Variable pconfs : list pconf.
+Variable gconfs : list gconf.
+Notation run := (Model.run U pconfs gconfs).
+
+Lemma sk_cs i new e : new <> STOPPED -> presG SK (Model.change_state U i new e).
+Proof.
+  intros Hn w H. unfold Model.change_state, bind, gets, getw, getp, setp, modw, emit, ret.
+  destruct (pstate_eqb new (sts w i)); [exact H|]. unfold SK, TP in *. cbn [snd out set_out set_procs set_sts].
+  apply stop_ok_cons; [|exact H]. destruct (sts w i), new; cbn; try exact Logic.I. congruence.
+Qed.
+
+Lemma sk_move_ne i site ok f new e : new <> STOPPED -> presG SK (Model.move U i site ok f new e).
+Proof.
+  intros Hn. unfold Model.move. apply presG_bind; [sktac|]. intros _. apply presG_bind; [sktac|]. intros _.
+  apply sk_cs. exact Hn.
+Qed.
+
+(* a move to STOPPED whose assertion excludes STOPPING (kill in BACKOFF) *)
+Lemma sk_move_stopped i site ok f e : ok STOPPING = false -> presG SK (Model.move U i site ok f STOPPED e).
+Proof.
+  intros Hok w H. unfold Model.move, assert_in, modp, Model.change_state, bind, gets, getw, getp, setp, modw, emit, crash, ret.
+  cbn. destruct (ok (sts w i)) eqn:Eo; cbn.
+  - destruct (sts w i) eqn:Es; cbn; rewrite ?Es; cbn; try exact H; try (rewrite Hok in Eo; discriminate Eo).
+  - exact H.
+Qed.
+
+Hint Extern 1 (presG SK (Model.move _ _ _ _ _ STOPPED _)) => apply sk_move_stopped; reflexivity : skdb.
+Hint Extern 1 (presG SK (Model.move _ _ _ _ _ _ _)) => apply sk_move_ne; discriminate : skdb.
+Hint Extern 1 (presG SK (Model.change_state _ _ _ _)) => apply sk_cs; discriminate : skdb.
+
+(* the move of finish: STOPPING -> STOPPED, right after the waitpid *)
+Lemma skw_move8 i :
+  tri SKW (Model.move U i 8 (fun s => pstate_eqb s STOPPING) (fun p => p) STOPPED true) (fun _ => SK) SK.
+Proof.
+  unfold tri. intros w [H (q & s & r & Eo)].
+  unfold Model.move, assert_in, modp, Model.change_state, bind, gets, getw, getp, setp, modw, emit, crash, ret.
+  cbn. destruct (sts w i) eqn:Es; cbn; rewrite ?Es; cbn; try exact H.
+  unfold SK, TP. cbn. rewrite Eo. rewrite Eo in H. split; [exact Logic.I | exact H].
+Qed.
+
+Lemma skw_quiet {A} (m : Model.M A) : quiet out m -> tri SKW m (fun _ => SKW) SK.
+Proof.
+  intros Hq w H. specialize (Hq w). destruct (m w) as [[a|] w1]; cbn in Hq; unfold SKW, SK, TP in *; rewrite Hq;
+    [exact H | apply H].
+Qed.
+
+Lemma skw_weak {A} (m : Model.M A) : presG SK m -> tri SKW m (fun _ => SK) SK.
+Proof. intros H. eapply tri_conseq; [apply tri_of_presG; exact H | apply SKW_SK | auto | auto]. Qed.
+
+Lemma sk_finish_tri i st : tri SKW (Model.finish U pconfs i st) (fun _ => SK) SK.
+Proof.
+  unfold Model.finish. cbv zeta.
+  eapply tri_bind; [apply skw_quiet; intros w; reflexivity|]. intros w0; cbv beta.
+  eapply tri_bind; [apply skw_quiet; intros w; reflexivity|]. intros u1; cbv beta.
+  eapply tri_bind; [apply skw_quiet; intros w; reflexivity|]. intros u2; cbv beta.
+  eapply tri_bind; [apply skw_quiet; intros w; reflexivity|]. intros p; cbv beta.
+  eapply tri_bind; [apply skw_quiet; intros w; reflexivity|]. intros s; cbv beta.
+  eapply tri_bind; [|intros u3; apply tri_of_presG; sktac].
+  destruct (pstate_eqb s UNKNOWN); [apply skw_weak; sktac|].
+  destruct (killing p).
+  - eapply tri_bind; [apply skw_quiet; intros w; reflexivity|]. intros u4; cbv beta. apply skw_move8.
+  - apply skw_weak. sktac.
+Qed.
+
+Lemma sk_rollback i t : presG SK (Model.rollback_adjust U pconfs i t).
+Proof. unfold Model.rollback_adjust. sktac. Qed.
+Lemma sk_give_up i : presG SK (Model.give_up U i).
+Proof. unfold Model.give_up. sktac. Qed.
+Lemma sk_kill i sig : presG SK (Model.kill U pconfs i sig).
+Proof. unfold Model.kill. sktac. Qed.
+Lemma sk_spawn i : presG SK (Model.spawn U pconfs i).
+Proof. unfold Model.spawn. sktac. Qed.
+Hint Resolve sk_rollback sk_give_up sk_kill sk_spawn : skdb.
+Lemma sk_stop i : presG SK (Model.stop U pconfs i).
+Proof. unfold Model.stop. sktac. Qed.
+Lemma sk_signal i sig : presG SK (Model.signal U i sig).
+Proof. unfold Model.signal. sktac. Qed.
+Hint Resolve sk_stop sk_signal : skdb.
+Lemma sk_transition i : presG SK (Model.transition U pconfs i).
+Proof. unfold Model.transition. sktac. Qed.
+Hint Resolve sk_transition : skdb.
+
+Lemma sk_reap fuel : presG SK (Model.reap U pconfs fuel).
+Proof.
+  induction fuel as [|f IH]; cbn [Model.reap]; [apply presG_ret|].
+  apply presG_getw. intros w0 _. destruct (zombies w0) as [|[zp st] rest]; [apply presG_ret|].
+  apply presG_bind; [sktac|]. intros _.
+  apply presG_of_tri. eapply (tri_bind _ _ _ (fun _ => SKW)).
+  - intros w H. unfold emit. cbn [fst snd]. split; [apply (stop_ok_cons (EWait zp st)); [exact Logic.I | exact H] | do 3 eexists; reflexivity].
+  - intros u1; cbv beta. destruct (lookup_hist zp (pidhist w0)) as [i|].
+    + eapply tri_bind; [apply sk_finish_tri|]. intros u2; cbv beta. apply tri_of_presG.
+      apply presG_bind; [sktac | intros _; exact IH].
+    + apply skw_weak. exact IH.
+Qed.
+Hint Resolve sk_reap : skdb.
+
+Lemma sk_stop_all g : presG SK (Model.stop_all U pconfs gconfs g).
+Proof. unfold Model.stop_all. sktac. Qed.
+Lemma sk_handle_signal : presG SK handle_signal.
+Proof. unfold handle_signal. sktac. Qed.
+Lemma sk_start_process i wait : presG SK (Model.start_process U pconfs i wait).
+Proof. unfold Model.start_process, reap_all. sktac. Qed.
+Lemma sk_start_onwait i : presG SK (start_onwait i).
+Proof. unfold start_onwait. sktac. Qed.
+Lemma sk_stop_process i wait : presG SK (Model.stop_process U pconfs i wait).
+Proof. unfold Model.stop_process, reap_all. sktac. Qed.
+Lemma sk_stop_onwait i : presG SK (Model.stop_onwait U pconfs i).
+Proof. unfold Model.stop_onwait. sktac. Qed.
+Lemma sk_signal_process i sig ok : presG SK (Model.signal_process U pconfs i sig ok).
+Proof. unfold Model.signal_process. sktac. Qed.
+Hint Resolve sk_stop_all sk_handle_signal sk_start_process sk_start_onwait sk_stop_process sk_stop_onwait sk_signal_process : skdb.
+Lemma sk_call_one k wait i : presG SK (Model.call_one U pconfs k wait i).
+Proof. destruct k; cbn; sktac. Qed.
+Lemma sk_poll_one k i : presG SK (Model.poll_one U pconfs k i).
+Proof. destruct k; cbn; sktac. Qed.
+Hint Resolve sk_call_one sk_poll_one : skdb.
+Lemma sk_all_first k wait l : forall cbs res, presG SK (Model.all_first U pconfs k wait l cbs res).
+Proof. induction l as [|x l IH]; intros; cbn; sktac. Qed.
+Lemma sk_all_poll k l : forall cbs res, presG SK (Model.all_poll U pconfs k l cbs res).
+Proof. induction l as [|x l IH]; intros; cbn; sktac. Qed.
+Hint Resolve sk_all_first sk_all_poll : skdb.
+Lemma sk_poll_deferred d : presG SK (Model.poll_deferred U pconfs d).
+Proof. destruct d; cbn; sktac. Qed.
+Hint Resolve sk_poll_deferred : skdb.
+Lemma sk_poll_pending l : forall keep, presG SK (Model.poll_pending U pconfs l keep).
+Proof. induction l as [|x l IH]; intros; cbn; sktac. Qed.
+Hint Resolve sk_poll_pending : skdb.
+Lemma sk_defer_now d : presG SK (Model.defer_now U pconfs d).
+Proof. unfold Model.defer_now, add_pending. sktac. Qed.
+Hint Resolve sk_defer_now : skdb.
+Lemma sk_do_rpc req r : presG SK (Model.do_rpc U pconfs gconfs req r).
+Proof. unfold Model.do_rpc. destruct r; sktac. Qed.
+Lemma sk_child_dies k s : presG SK (child_dies k s).
+Proof. unfold child_dies. sktac. Qed.
+Hint Resolve sk_do_rpc sk_child_dies : skdb.
+Lemma sk_do_act a : presG SK (Model.do_act U pconfs gconfs a).
+Proof. destruct a; cbn; sktac. Qed.
+Lemma sk_loop_head : presG SK (Model.loop_head U pconfs gconfs).
+Proof. unfold Model.loop_head. sktac. Qed.
+Lemma sk_phase2 : presG SK (Model.phase2 gconfs).
+Proof. unfold Model.phase2. sktac. Qed.
+Hint Resolve sk_do_act sk_loop_head sk_phase2 : skdb.
+Lemma sk_do_pass o : presG SK (Model.do_pass U pconfs gconfs o).
+Proof. unfold Model.do_pass, transition_group, reap_all. sktac. Qed.
+
+Theorem stopped_only_after_wait ops : stop_ok (out (run ops)).
+Proof.
+  unfold Model.run. assert (H0 : SK world0) by (cbn; exact Logic.I). revert H0. generalize world0.
+  induction ops as [|o ops IH]; intros w H; cbn; [exact H|].
+  apply IH. unfold Model.step. destruct (crashed w || exited w); [exact H | apply sk_do_pass; exact H].
+Qed.
+
+Lemma stop_ok_split l i x e r : stop_ok (l ++ EState i STOPPING STOPPED x e :: r) -> exists q s r', r = EWait q s :: r'.
+Proof.
+  induction l as [|e0 l IH]; cbn.
+  - intros [H _]. destruct r as [|[] r']; try contradiction. eauto.
+  - intros H. apply IH. destruct e0; try exact H. destruct from, to; try exact H. apply H.
+Qed.
+
+(* B4 (second half): in every run, a notification that leaves STOPPING either enters STOPPED, and then
+   it is the immediate continuation of a waitpid (only `finish` announces it), or enters UNKNOWN
+   right after an os.kill that failed with an error other than ESRCH *)
+Theorem stopping_until_reaped_then_stopped ops l i t x e r :
+  out (run ops) = l ++ EState i STOPPING t x e :: r ->
+  (t = STOPPED /\ exists q s r', r = EWait q s :: r') \/
+  (t = UNKNOWN /\ exists tg sg r', r = EKill tg sg 2 :: r').
+Proof.
+  intros Eo. destruct (TI_run U pconfs gconfs ops) as [HT _]. rewrite Eo in HT.
+  apply trace_ok_suffix in HT. cbn in HT. destruct HT as (_ & _ & [He | [-> Hf]] & _).
+  - left. destruct t; try discriminate He. split; [reflexivity|].
+    pose proof (stopped_only_after_wait ops) as HS. rewrite Eo in HS. exact (stop_ok_split _ _ _ _ _ HS).
+  - right. split; [reflexivity|]. destruct r as [|[] r']; try discriminate Hf. cbn in Hf.
+    assert (res = 2) as ->
+      by (destruct res as [|q|q]; try discriminate Hf; destruct q as [q|q|]; try discriminate Hf;
+          destruct q; try discriminate Hf; reflexivity).
+    eauto.
+Qed.
+
+End StopShape.
